@@ -106,6 +106,25 @@ theorem dedupFirst_spec {α} [DecidableEq α] (l : List α) :
   refine ⟨h1, fun x => by simpa using h2 x, ?_⟩
   rw [h3]; simpa using h4
 
+theorem dedupAux_nodup_id {α} [DecidableEq α] : ∀ (l out : List α), (out ++ l).Nodup → dedupAux l out = out ++ l
+  | [], out, _ => by simp [dedupAux]
+  | x :: r, out, h => by
+    unfold dedupAux
+    have hx : x ∉ out := by
+      intro hm
+      rw [List.nodup_append] at h
+      exact h.2.2 x hm x (by simp) rfl
+    simp only [hx, if_false]
+    rw [dedupAux_nodup_id r (out ++ [x]) (by simpa using h)]
+    simp
+
+/-- de-duplicating twice is de-duplicating once -/
+theorem dedupFirst_idem {α} [DecidableEq α] (l : List α) : dedupFirst (dedupFirst l) = dedupFirst l := by
+  have h := (dedupFirst_spec l).1
+  unfold dedupFirst at h ⊢
+  rw [dedupAux_nodup_id (dedupAux l []) [] (by simpa using h)]
+  simp
+
 /-- `ConvertFontFamiliesToURLs`: the address of every family (`lookup`, "" = no web font), the empty ones dropped, the
     first occurrence of each kept -/
 def convert (lookup : List B → List B) (fams : List (List B)) : List (List B) :=
